@@ -5,6 +5,24 @@ import os
 ROOT = os.path.dirname(os.path.dirname(os.path.abspath(__file__)))
 
 CHECKS = {
+    "C01": dict(
+        technique="TLA+ spec (Registry, DefTable) model-checked with TLC; TLC-generated registries and probes replayed into pint; conversions over the bundled registry validated by a TLC trace spec against an independently read definition table",
+        text="TLC checks over a family of registries (768 in thorough, 48 in quick) that the transcribed accumulator recursion for dimensionality equals the "
+             "declarative definition and that convertibility is an equivalence and a congruence; every registry is materialised as definition text, loaded "
+             "by pint in several configurations and every ordered probe pair is put through to/ito/m_as/convert and all compatibility predicates; over the "
+             "bundled registry, dimensionalities of all spellings and the outcome of unit pairs (all ~1.5e5 ordered pairs in thorough) are logged and "
+             "recomputed inside TLC from the independent reader's abstract lines.",
+        design_ref="DESIGN.md section 3, C01",
+        note="Small-scope hypothesis for the family; the lexical reader (harness/reader.py) is trusted for the bundled-registry part; contexts off."),
+    "C02": dict(
+        technique="TLA+ spec (Registry, DefTable, ModArith) model-checked with TLC; TLC-computed exact factors replayed into Fraction/Decimal/float registries; bundled-registry factors validated by TLC through modular fingerprints",
+        text="TLC checks that the transcribed root-unit recursion equals the product along the reference chain and the identity / inverse / path laws; "
+             "each family registry is materialised and every convertible probe pair converted through eight API forms and compared exactly (Fraction), "
+             "to 1e-25 (Decimal) or 16 ulp (float); over the bundled registry, factors of same-dimension pairs (canonical, alias, symbol, prefixed, plural, "
+             "compound, two-step paths) are logged as residues modulo two primes and recomputed by Trace_Reg from the written literals.",
+        design_ref="DESIGN.md section 3, C02",
+        note="Fingerprints miss a wrong factor with probability ~5e-10 per event; units with irrational chains (fractional powers of non-trivial "
+             "scales) are compared in float only; an edited constant in default_en.txt is invisible here by construction (C20's job)."),
     "C04": dict(
         technique="TLA+ spec (UnitAlgebra, LinAlg) model-checked with TLC; TLC-generated cases replayed into pint; recorded operations validated by a TLC trace spec",
         text="TLC checks exhaustively (3 names, exponents -2..2 and +-1/2, all pairs, all powers, triples) that the operational model of "
